@@ -49,6 +49,22 @@ def units(rng, tier):
         if rng.random() < 0.4:
             s.sort()
         us.extend(units_for_vector(s, rng, ["list", "tuple", "array"], "random"))
+    # long sum vectors (10..120 entries; the sizes at which an implementation might switch strategy), every objective, k from 1 to beyond the length
+    for _ in range(60 if tier == "quick" else 600):
+        n = rng.choice([10, 16, 17, 31, 32, 33, 34, 40, 63, 64, 65, 100, 120])
+        hi = rng.choice([10, 1000, 2 ** 40])
+        s = [rng.randint(0, hi) for _ in range(n)]
+        if rng.random() < 0.3:
+            s.sort()
+        srt = s == sorted(s)
+        kind = rng.choice(["list", "tuple", "array"])
+        for o in (0, 1, 2):
+            us.append(U("objective_value", {"o": o, "ok": 0, "sums": list(s), "sorted": 0, "kind": kind}, "long-vectors"))
+        for o in (3, 4):
+            for k in {1, 2, rng.randint(1, max(1, n // 4)), rng.randint(1, n), n, n + 3}:
+                us.append(U("objective_value", {"o": o, "ok": k, "sums": list(s), "sorted": 0, "kind": kind}, "long-vectors"))
+                if srt:
+                    us.append(U("objective_value", {"o": o, "ok": k, "sums": list(s), "sorted": 1, "kind": kind}, "long-vectors/sorted"))
     # weighted objective
     nw = 200 if tier == "quick" else 2000
     for _ in range(nw):
